@@ -79,6 +79,7 @@ PRECOND = {
     'core::num::<impl usize>::next_multiple_of': 'div0', 'core::num::<impl usize>::ilog2': 'overflow-fn', 'core::num::<impl u128>::ilog2': 'overflow-fn',
     'core::cell::RefCell::<T>::replace': 'borrow', 'core::cell::RefCell::<T>::swap': 'borrow',
     'core::time::Duration::from_secs_f64': 'overflow-fn', 'std::time::Instant::duration_since': 'overflow-fn',
+    "core::fmt::rt::Argument::<'_>::from_usize": 'fmt-width',      # a run-time width / precision above u16::MAX panics while formatting
     'arcstr::arc_str::ArcStr::substr': 'str-index', 'arcstr::substr::Substr::substr': 'str-index',
     '<rpds::vector::Vector<T, P> as core::ops::index::Index<usize>>::index': 'index',
     '<rpds::vector::Vector<T, P> as core::ops::index::IndexMut<usize>>::index_mut': 'index',
@@ -402,6 +403,9 @@ def upper_by_type(f, e, depth=0):
             return b - 1
         if op == 'BitAnd':
             return min(a, b)
+        if op in ('BitOr', 'BitXor') and a != INF and b != INF:
+            m = max(a, b)
+            return (1 << m.bit_length()) - 1
         if op in ('Add', 'AddWithOverflow') and a != INF and b != INF:
             return a + b
         if op in ('Sub', 'SubWithOverflow'):
@@ -416,6 +420,10 @@ def upper_by_type(f, e, depth=0):
         if op == 'Mul' and a != INF and b != INF:
             return a * b
         return INF
+    if e[0] == 'call' and e[1] == 'fmt_flags::FmtFlags::into_raw':
+        b = fmtflags_bound(_FXG[0])
+        if b is not None:
+            return b
     if e[0] == 'call':
         n = e[1]
         if n in ('core::cmp::Ord::min', 'core::cmp::min') and len(e[2]) == 2:
@@ -444,6 +452,60 @@ def upper_by_type(f, e, depth=0):
             and closure_item_of_iter8(_FXG[0], f):
         return 255 if e[2][0] == '0' else 8
     return INF
+
+
+_FMTFLAGS = {}
+
+
+def fmtflags_bound(fx):
+    """type invariant of fmt_flags::FmtFlags: every construction `FmtFlags(v)` in the crate has v <= B, assuming the field
+    of any FmtFlags it reads is <= B (induction over constructions).  Returns the smallest B of the form 2^k - 1 that
+    works (k <= 16), or None."""
+    if fx is None:
+        return None
+    if id(fx) in _FMTFLAGS:
+        return _FMTFLAGS[id(fx)]
+    res = None
+    for k in (12, 13, 14, 15, 16):
+        B = (1 << k) - 1
+        good = True
+        n = 0
+        for fn, f in fx.fns.items():
+            for bb in f.reachable_blocks():
+                for st in f.blocks[bb]['stmts']:
+                    if st['k'] == 'assign' and st['rv']['k'] == 'agg' and st['rv'].get('adt') == 'fmt_flags::FmtFlags':
+                        n += 1
+                        v = f.expr_of_operand(st['rv']['fields'][0])
+                        if _ub_with_field(f, v, B) > B:
+                            good = False
+        if good and n:
+            res = B
+            break
+    _FMTFLAGS[id(fx)] = res
+    return res
+
+
+def _ub_with_field(f, e, B, depth=0):
+    """upper bound where `.0` of a FmtFlags value counts as <= B"""
+    e = strip(e)
+    if not isinstance(e, tuple) or depth > 8:
+        return INF
+    if e[0] == 'proj' and tuple(p for p in e[2] if p != '*') == ('0',):
+        base = strip(e[1])
+        if isinstance(base, tuple) and base[0] == 'arg' and 'FmtFlags' in f.local_ty(base[1]):
+            return B
+    if e[0] == 'bin':
+        a, b = _ub_with_field(f, e[2], B, depth + 1), _ub_with_field(f, e[3], B, depth + 1)
+        if e[1] == 'BitAnd':
+            return min(a, b)
+        if e[1] in ('BitOr', 'BitXor') and a != INF and b != INF:
+            return (1 << max(a, b).bit_length()) - 1
+        return upper_by_type(f, e)
+    if e[0] == 'un' and e[1] == 'Not':
+        return INF
+    if e[0] == 'phi':
+        return max([_ub_with_field(f, x, B, depth + 1) for x in e[1]] or [INF])
+    return upper_by_type(f, e)
 
 
 def lower_by_type(f, e):
@@ -821,6 +883,16 @@ def discharge_call(fx, f, s, tainted_params):
             r = strip(ops[-1])
             if isinstance(r, tuple) and r[0] == 'const' and r[1].get('v', 0) > 0:
                 return 'D-CONST', 'chunk size %s' % r[1]['v']
+            return None
+        if k2 == 'fmt-width':
+            from ..core import simplify
+            v = strip(simplify(norm_refs(ops[0])))
+            ub = upper_by_type(f, v)
+            if ub <= 0xffff:
+                return 'D-TYPE', 'run-time format width/precision <= %s <= u16::MAX' % ub
+            zu = z.upper(lin(v))
+            if zu <= 0xffff:
+                return 'D-ZONE', 'run-time format width/precision <= %s by %s' % (zu, gtxt[:2])
             return None
         if k2 == 'str-index' and 'RangeFull' in expr_str(ops[-1], -4):
             return 'D-CONST', 'full range'
@@ -1259,7 +1331,26 @@ def _to_uint_callers_bound_len(fx):
     return ok and n >= 2
 
 
-PREDICATES = {'@next_nonws-filters': _next_nonws_filters, '@to_uint-callers-bound-len': _to_uint_callers_bound_len}
+def _hex_prefix_is_ascii(fx):
+    """Bitstr::from_hex_str reports the index of the first bad character counted in characters; the callers use it as a byte
+    offset.  The two agree only while every character accepted before it is one byte long: the parser may skip ASCII
+    whitespace and accept to_digit(16) digits, nothing else."""
+    ok = True
+    for name in ('bitstr::Bitstr::from_hex_str',):
+        f = fx.fns.get(name)
+        if f is None:
+            return False
+        cls = {callee_of(t) for _, t in f.calls() if (callee_of(t) or '').startswith('core::char::methods::<impl char>::')}
+        if not cls <= {'core::char::methods::<impl char>::is_ascii_whitespace', 'core::char::methods::<impl char>::to_digit',
+                       'core::char::methods::<impl char>::is_ascii_hexdigit', 'core::char::methods::<impl char>::is_ascii_digit'}:
+            ok = False
+        if 'core::char::methods::<impl char>::is_ascii_whitespace' not in cls and any('whitespace' in (c or '') for c in cls):
+            ok = False
+    return ok
+
+
+PREDICATES = {'@next_nonws-filters': _next_nonws_filters, '@to_uint-callers-bound-len': _to_uint_callers_bound_len,
+              '@hex-prefix-is-ascii': _hex_prefix_is_ascii}
 
 
 def _calls_dominating(f, bb):
